@@ -32,7 +32,7 @@ def run(ctx):
     for alg, enc in E.combos(rng, n):
         for ser in (("compact", "general") if ctx.tier == "quick" else ("compact", "flat", "general")):
             apu = rng.choice([None, {"apu": "QWxpY2U", "apv": "Qm9i"}, {"apv": "Qg"}]) if alg.startswith("ECDH") else None
-            c = E.build(rng, alg, enc, ser, rng.choice(E.PLAINTEXTS), zip_=rng.random() < 0.4, style=rng.randrange(5),
+            c = E.build(rng, alg, enc, ser, rng.choice(E.PLAINTEXTS), zip_=rng.random() < 0.4, style=rng.randrange(6),
                         aad=(rng.choice([b"a", b"\x00\xff aad"]) if ser != "compact" and rng.random() < 0.5 else None),
                         header_extra=apu, kn=E.key_name(alg, enc, rng),
                         unprotected=({"jku": "https://x.example/k"} if ser != "compact" and rng.random() < 0.3 else None))
